@@ -82,6 +82,20 @@ C08Call ==
        /\ \A p \in P7 : ~Flagged(a, p)
     /\ Step
 
+\* KNOWN FINDING F2 (known_findings.json), modelled as what the code does: for a method that defines Isha by an
+\* interval (Isha angle 0), the angle-0 Isha is still tested for existence; on a day where Maghrib exists but the Sun's
+\* centre never reaches 0 degrees (|lat| 66..67.5 near the winter solstice) an 'invalid' policy replaces that Isha,
+\* the interval rewrite then restores Maghrib + interval but keeps the extreme flag.  Accepted only while listed, only
+\* for this shape (same value, flag added, nothing else differs), and every use is printed.
+KnownF2 == "KNOWN_F2" \in DOMAIN IOEnv /\ IOEnv.KNOWN_F2 = "1"
+C08KnownF2 ==
+    /\ Is("c08") /\ KnownF2 /\ WellFormed(Ev.a) /\ WellFormed(Ev.b)
+    /\ Ev.p.ii # 0 /\ Ev.p.ia = 0 /\ Ev.p.pol \in InvalidPolicies
+    /\ Ok(Ev.a, Isha) /\ Ev.b.t[Isha] = Ev.a.t[Isha] /\ ~Flagged(Ev.a, Isha) /\ Flagged(Ev.b, Isha)
+    /\ \A p \in P7 \ {Isha} : SameEntry(Ev.a, Ev.b, p)
+    /\ PrintT(<<"KNOWN", "F2", l>>)
+    /\ Step
+
 (* C09: nb = conventional results (same offsets and rounding, policy None) of the dates d+o,
    for o = -m..m where m is the distance of the nearest date on which Fajr and Isha both exist *)
 NbOf(o) == CHOOSE n \in 1..Len(Ev.nb) : Ev.nb[n].o = o
@@ -184,7 +198,7 @@ C12Call ==
     /\ Step
 
 TraceInit == l = Start
-TraceNext == C05Call \/ C07Call \/ C08Call \/ C09Call \/ C10Call \/ C11Call \/ C12Call
+TraceNext == C05Call \/ C07Call \/ C08Call \/ C08KnownF2 \/ C09Call \/ C10Call \/ C11Call \/ C12Call
 TraceSpec == TraceInit /\ [][TraceNext]_l
 
 TraceAccepted ==
